@@ -87,6 +87,26 @@ Theorem C56_prop_of_model : forall i, wf_C56 i = true -> kf_C56 i = 0 -> prop_C5
 Proof. exact prop_C56_of_model. Qed.
 Print Assumptions C56_prop_of_model.
 
+(* Concurrent queries (DnsClient.Fetch from two clients while the upstream has not answered yet).  For every pair of
+   requests that are each forwardable and carry different message IDs: BOTH messages reach the upstream, each with
+   its own ID and with the client-subnet option of ITS client, and each client is answered with the reply to its
+   own ID.  (The implementation satisfies this only if the upstream client does not coalesce identical questions:
+   dns.Client.SingleInflight must be false - also checked directly through NewDnsClient.) *)
+Theorem C56_concurrent_each_forwarded : forall o1 q1 o2 q2,
+  pair_wf o1 q1 o2 q2 = true ->
+  exists i1 e1 i2 e2 c1 c2,
+    fwd_entry o1 q1 = Some (i1, e1) /\ fwd_entry o2 q2 = Some (i2, e2) /\ i1 <> i2
+    /\ client_ip q1 = Some c1 /\ client_ip q2 = Some c2 /\ ecs_matches c1 e1 = true /\ ecs_matches c2 e2 = true
+    /\ run_pair o1 q1 o2 q2 =
+       VL [VL [VZ 1; VZ i1]; VL [VZ 1; VZ i2];
+           VL (if i1 <=? i2 then [enc_entry (i1, e1); enc_entry (i2, e2)] else [enc_entry (i2, e2); enc_entry (i1, e1)])].
+Proof. exact pair_each_forwarded. Qed.
+Print Assumptions C56_concurrent_each_forwarded.
+Theorem C56_pair_prop_of_model : forall o1 q1 o2 q2,
+  pair_wf o1 q1 o2 q2 = true -> prop_pair q1 q2 (run_pair o1 q1 o2 q2) = true.
+Proof. exact prop_pair_model. Qed.
+Print Assumptions C56_pair_prop_of_model.
+
 (* Non-vacuity *)
 Example C56_v4_example :
   wf_C56 w_v4 = true /\ kf_C56 w_v4 = 0 /\ run_C56 w_v4 = w_v4_out /\ prop_C56 w_v4 w_v4_out = true.
